@@ -1121,3 +1121,25 @@ def docenv_of(tree):
         if k[0] != 'w' and k[2] == DOCUMENT_LEVEL:
             return k
     return None
+
+
+# ------------------------------------------------------------------------------------------------------------------
+# the extracted entry point answers (observation, premises-hold flag): Proofs/RenderProofs2.v run_case_checked
+
+def unwrap(mo):
+    """-> (observation of Model/Render.v, 1/0: the premises of C13_split_by_level hold for this case, None when unknown)"""
+    if isinstance(mo, list) and len(mo) == 2 and isinstance(mo[1], int) and not isinstance(mo[0], int):
+        return mo[0], mo[1]
+    return mo, None
+
+
+class Counted(list):
+    """a list of fixed strings plus one line computed when the evidence is written (core reads it with list(...))"""
+    def __init__(self, fixed, counter, text):
+        list.__init__(self, fixed)
+        self.counter, self.text = counter, text
+
+    def __iter__(self):
+        for x in list.__iter__(self):
+            yield x
+        yield self.text % (self.counter.get(1, 0), sum(self.counter.values()))
